@@ -448,6 +448,10 @@ func judgeCfgCase(r *ev.Run, nc nodeCase, res startResult, obs actionObs) {
 		b, _ := json.Marshal(map[string]any{"result": res, "actions": obs})
 		fmt.Printf("REPLAY-OBSERVED %s\n", b)
 	}
+	if strings.HasPrefix(res.Crashed, "harness:") {
+		r.NotExhaustive("isolated case not run: " + res.Crashed)
+		return
+	}
 	if res.Crashed != "" {
 		// the child process that ran this start died or hung: a crash is not a verdict of the property (the node is not running)
 		r.Eval(nc.Kind + nc.Flag + ev.Key(c))
